@@ -150,9 +150,51 @@ fn xonly_of(w: &World, id: usize) -> bitcoin::secp256k1::XOnlyPublicKey { w.env.
 /// The situation in which the finalizer's cross-input key table matters: an unfinalised input
 /// without key-origin fields next to another input that has them.
 pub fn cross_input_key_origins(p: &Psbt) -> bool {
-    let has = |i: &bitcoin::psbt::Input| !i.bip32_derivation.is_empty() || !i.tap_key_origins.is_empty();
+    use bitcoin::hashes::hash160;
     let fin = |i: &bitcoin::psbt::Input| i.final_script_sig.is_some() || i.final_script_witness.is_some();
-    p.inputs.iter().any(|i| !has(i) && !fin(i)) && p.inputs.iter().any(|i| has(i))
+    let contains = |hay: &[u8], needle: &[u8]| hay.windows(needle.len()).any(|w| w == needle);
+    for (a, ia) in p.inputs.iter().enumerate() {
+        if fin(ia) {
+            continue;
+        }
+        // every script of input a
+        let mut scripts: Vec<u8> = vec![];
+        for sc in ia.witness_script.iter().chain(ia.redeem_script.iter()) {
+            scripts.extend_from_slice(sc.as_bytes());
+        }
+        for (sc, _) in ia.tap_scripts.values() {
+            scripts.extend_from_slice(sc.as_bytes());
+        }
+        if scripts.is_empty() {
+            continue;
+        }
+        for (b, ib) in p.inputs.iter().enumerate() {
+            if a == b {
+                continue;
+            }
+            // a key whose hash occurs in a's scripts, known to input b's key-origin fields only
+            for k in ib.bip32_derivation.keys() {
+                if ia.bip32_derivation.contains_key(k) {
+                    continue;
+                }
+                let c = hash160::Hash::hash(&k.serialize());
+                let u = hash160::Hash::hash(&k.serialize_uncompressed());
+                if contains(&scripts, c.as_byte_array()) || contains(&scripts, u.as_byte_array()) {
+                    return true;
+                }
+            }
+            for k in ib.tap_key_origins.keys() {
+                if ia.tap_key_origins.contains_key(k) {
+                    continue;
+                }
+                let h = hash160::Hash::hash(&k.serialize());
+                if contains(&scripts, h.as_byte_array()) {
+                    return true;
+                }
+            }
+        }
+    }
+    false
 }
 
 pub fn check_updater(w: &mut World, psbt: &Psbt, i: usize, before: &bitcoin::psbt::Input, subset: bool) {
